@@ -1,7 +1,7 @@
 """Property -> rule list, with the text that goes into the evidence."""
 import importlib
 
-RULE_MODULES = ["su", "w", "xn", "gv"]
+RULE_MODULES = ["su", "w", "xn", "gv", "r"]
 
 COMMON_ASSUME = [
     "clang 14's parse, constant evaluation and CFG of each unit are faithful to the C semantics",
@@ -92,6 +92,7 @@ PROPS = {
               "(V3).",
               "equality of the repeated and the retyped execution (relational, behavioural); the "
               "bounds of the recording/push-back buffers are decided under C05 (B1)."),
+    "C11": _p(["R1", "R2", "R3", "R7"], "wip.", "wip."),
     "C15": _p(["S4", "G1", "G2"],
               "nothing reachable from a line-command handler or from ex_exec (dispatch edge "
               "excluded) bumps the sequence number, and ec_glob nests through ex_exec (S4: the "
